@@ -4,6 +4,7 @@ mod c04;
 mod c05;
 mod codec;
 mod lru;
+mod pick;
 mod c09;
 mod sched;
 mod c12;
@@ -102,6 +103,7 @@ fn main() {
         "c17" => c17::run(&tier, seed, replay.as_deref(), &drv),
         "lru" => lru::run(&tier, seed, replay.as_deref(), &drv),
         "codec" => codec::run(&tier, seed, replay.as_deref(), &drv),
+        "pick" => pick::run(&tier, seed, replay.as_deref(), &drv),
         "c15" => {
             let sh = shard::parse_shard(&args);
             if sh.is_some() || replay.is_some() || std::env::var("VERIF_NOSHARD").is_ok() {
